@@ -665,6 +665,71 @@ def split_utf8_scenario(ctx, viol):
         pr.destroy()
 
 
+def run_on_terminal(pr, argv, columns, timeout=60):
+    """Run a command with stderr on a pseudo-terminal of the given width (raw mode: no output translation); the status
+    line is only shown on a terminal.  Returns (exit status, everything written to the terminal)."""
+    import pty, tty, fcntl, termios, struct, subprocess, threading, signal
+    from proj import clean_env, kill_orphans
+    master, slave = pty.openpty()
+    tty.setraw(slave)
+    fcntl.ioctl(slave, termios.TIOCSWINSZ, struct.pack("HHHH", 24, columns, 0, 0))
+    chunks = []
+
+    def pump():
+        while True:
+            try:
+                b = os.read(master, 1 << 16)
+            except OSError:
+                return
+            if not b:
+                return
+            chunks.append(b)
+    p = subprocess.Popen(argv, cwd=pr.root, env=clean_env(), stdin=subprocess.DEVNULL, stdout=subprocess.DEVNULL, stderr=slave, start_new_session=True)
+    os.close(slave)
+    th = threading.Thread(target=pump, daemon=True)
+    th.start()
+    try:
+        rc = p.wait(timeout=timeout)
+    except subprocess.TimeoutExpired:
+        try:
+            os.killpg(p.pid, signal.SIGKILL)
+        except ProcessLookupError:
+            pass
+        p.wait()
+        rc = -999
+    kill_orphans(p.pid)
+    th.join(timeout=5)
+    os.close(master)
+    return rc, b"".join(chunks).decode("utf-8", "replace")
+
+
+def status_line_scenario(ctx, viol):
+    """The live output with the status line on (stderr is a terminal — here a pseudo-terminal of the given width): the status line is the one place where the viewer does arithmetic on target names.  A long name with
+    multi-byte characters has to be cut to fit (the cut must not fall inside a character), and a width smaller than the
+    `redo N ` prefix leaves no room at all — in both cases the viewer used to panic (before 35c93e3) and every later line
+    of the build was lost from the live output.  All lines of the script must appear exactly once, in order."""
+    name = "a" + "\u00e9" * 40
+    for width in (70, 71, 5):
+        pr = Project()
+        try:
+            pr.write(name + ".do", "echo first >&2\nsleep 1.7\necho second >&2\nredo-ifchange inner\necho third >&2\necho x\n")
+            pr.write("inner.do", "echo inner-1 >&2\nsleep 1.3\necho inner-2 >&2\necho i\n")
+            rc, err = run_on_terminal(pr, ["redo", "--status", "--no-pretty", "--no-color", name], width, timeout=60)
+            text = re.sub(r"\r[^\r\n]*\r", "", err)
+            got = attribute(parse_out(text))
+            want = {name: ["first", "second", "third"], "inner": ["inner-1", "inner-2"]}
+            bad = [t for t in want if got.get(t) != want[t]]
+            if rc != 0 or bad or "panicked" in err:
+                m = re.search(r"panicked at [^\n]*\n[^\n]*", err)
+                p = write_replay("C18", "status-line", dict(kind="impl-monitor", clause="every stderr line appears exactly once, in order, in the live output", width=width, rc=rc, target=name,
+                                                            want=want, got={t: got.get(t) for t in want}, panic=m.group(0) if m else None, stderr=err[-1200:]))
+                viol.append(Violation("C18", p, "live output with the status line on (width %d, target name with multi-byte characters): exit %d, lines %r, expected %r%s"
+                                      % (width, rc, {t: (got.get(t) or [])[:4] for t in bad}, {t: want[t] for t in bad}, "; the log viewer aborted: " + m.group(0).replace("\n", " ")[:160] if m else "")))
+                return
+        finally:
+            pr.destroy()
+
+
 CW_CAP = 20000          # upper bound of lines per background writer (keeps a round bounded on a stalled machine)
 RECORD_RE = re.compile(r"^@@REDO:[a-z]+:-?\d+:\d+\.\d+@@ [^@\n]*$")
 
@@ -926,6 +991,8 @@ def run(ctx):
         split_utf8_scenario(ctx, viol)
     if not viol:
         oob_subdir_scenario(ctx, viol)
+    if not viol:
+        status_line_scenario(ctx, viol)
     s5 = {}
     if not viol:
         # own generator: the scenarios above keep their input streams
